@@ -2,8 +2,8 @@
 //@ assume: key bytes: Hash::as_ref / Commitment::as_ref are the 32 / 33 bytes of the value (uninterpreted, injective is not needed here); `&[HEAD_PREFIX]` is the one-byte key holding that constant; Block::hash / BlockHeader::hash are uninterpreted; T6: `|| { "HEAD".to_owned() }` / `|| format!(..)` => a message value (option_to_not_found's `field_name()` => `field_name`); T3: log macros removed; the constants are extracted from the file (made `pub` so contracts can name them)
 //@ assume: range: output positions stored in the index are 1-based (get_output_pos subtracts one)
 //@ assume: decided here (what C02 / C03 / C06 / C09 / C13 / C18 units ASSUME of the chain store): every getter of chain/src/store.rs reads exactly the slot its saver writes -- head / tail / header head / PIBD head under no prefix with their own one-byte keys, headers, blocks, block sums, spent indices by block hash under four different prefixes, output positions by commitment -- and the eleven table prefixes are pairwise different (so no table can alias another); head_header is the header stored under the BODY head's last block hash (not the header head's); get_previous_header reads the header stored under prev_hash; delete_block removes the block and, best effort, its block sums and spent index and touches nothing else; get_output_pos is the stored position minus one
-//@ assumed_items: 9
-//@ fns: option_to_not_found, Batch::{head, tail, header_head, head_header, save_body_head, save_body_tail, save_header_head, save_pibd_head, get_block, block_exists, save_block, save_spent_index, delete_block, save_block_header, save_output_pos_height, delete_output_pos_height, get_output_pos, get_output_pos_height, get_previous_header, get_block_header, get_block_header_skip_proof, delete_spent_index, save_block_sums, get_block_sums, delete_block_sums, get_spent_index}, ChainStore::{head, header_head, tail, head_header, get_block, block_exists, get_block_sums, get_previous_header, get_block_header, get_output_pos, get_output_pos_height}
+//@ assumed_items: 11
+//@ fns: option_to_not_found, Batch::{head, tail, header_head, head_header, save_body_head, save_body_tail, save_header_head, save_pibd_head, get_block, block_exists, save_block, save_spent_index, delete_block, save_block_header, save_output_pos_height, delete_output_pos_height, get_output_pos, get_output_pos_height, get_previous_header, get_block_header, get_block_header_skip_proof, delete_spent_index, save_block_sums, get_block_sums, delete_block_sums, get_spent_index}, ChainStore::{pibd_head, head, header_head, tail, head_header, get_block, block_exists, get_block_sums, get_previous_header, get_block_header, get_output_pos, get_output_pos_height}
 global size_of usize == 8;
 //@ extract chain/src/store.rs :: const BLOCK_HEADER_PREFIX
 //@   rewrite `const BLOCK_HEADER_PREFIX` => `pub const BLOCK_HEADER_PREFIX`
@@ -284,8 +284,26 @@ impl Batch {
 //@+    r.is_err() ==> final(self).db.m@ == old(self).db.m@,
 //@ end
 }
+pub uninterp spec fn sp_genesis_tip() -> Tip;
+pub struct GenesisBlock { pub header: BlockHeader }
+pub mod global {
+    use super::*;
+    #[verifier::external_body]
+    pub fn get_genesis_block() -> (r: GenesisBlock) ensures Tip::sp_from_header(r.header) == sp_genesis_tip() { unimplemented!() }
+}
+impl Tip {
+    pub uninterp spec fn sp_from_header(h: BlockHeader) -> Tip;
+    #[verifier::external_body]
+    pub fn from_header(h: &BlockHeader) -> (r: Tip) ensures r == Tip::sp_from_header(*h) { unimplemented!() }
+}
 pub struct ChainStore { pub db: Db }
 impl ChainStore {
+//@ extract chain/src/store.rs :: impl ChainStore::pibd_head
+//@   rewrite `|| {\n\t\t\t"PIBD_HEAD".to_owned()\n\t\t}` => `fmtmsg()`
+//@   ensures:
+//@+    // the stored PIBD head, or -- when there is none or it cannot be read -- the tip of the genesis header; never an error
+//@+    r matches Ok(t) && (sp_read::<Tip>(self.db.m@, None::<u8>, seq![PIBD_HEAD_PREFIX]) == Some(t) || t == sp_genesis_tip()),
+//@ end
 //@ extract chain/src/store.rs :: impl ChainStore::head
 //@   format_as `fmtmsg()`
 //@   rewrite `|| fmtmsg()` => `fmtmsg()` x?
